@@ -13,7 +13,9 @@ import (
 	"github.com/grailbio/base/retry"
 	"github.com/grailbio/bigslice/frame"
 	"github.com/grailbio/bigslice/internal/simhook"
+	"github.com/grailbio/bigslice/slicefunc"
 	"github.com/grailbio/bigslice/sliceio"
+	"github.com/grailbio/bigslice/slicetype"
 )
 
 // Verification accessors (build tag verif). They add no behaviour.
@@ -145,3 +147,35 @@ func VerifNewRetryReader(ctx context.Context, open func(ctx context.Context, off
 
 // VerifRetryPolicy returns the retry policy of remote reads.
 func VerifRetryPolicy() retry.Policy { return retryPolicy }
+
+// VerifCombiner is the exported view of a combiner.
+type VerifCombiner struct{ c *combiner }
+
+// VerifNewCombiner returns a new combiner.
+func VerifNewCombiner(typ slicetype.Type, name string, comb slicefunc.Func, targetSize int) (*VerifCombiner, error) {
+	c, err := newCombiner(typ, name, comb, targetSize)
+	if err != nil {
+		return nil, err
+	}
+	return &VerifCombiner{c}, nil
+}
+
+func (v *VerifCombiner) Combine(ctx context.Context, f frame.Frame) error { return v.c.Combine(ctx, f) }
+func (v *VerifCombiner) Reader() (sliceio.Reader, error)                  { return v.c.Reader() }
+func (v *VerifCombiner) Discard() error                                   { return v.c.Discard() }
+func (v *VerifCombiner) WriteTo(ctx context.Context, enc *sliceio.Encoder) (int64, error) {
+	return v.c.WriteTo(ctx, enc)
+}
+
+// VerifCombiningFrame is the exported view of a combining frame.
+type VerifCombiningFrame struct{ c *combiningFrame }
+
+// VerifMakeCombiningFrame returns a new combining frame with the given table and scratch sizes.
+func VerifMakeCombiningFrame(typ slicetype.Type, comb slicefunc.Func, n, nscratch int) *VerifCombiningFrame {
+	return &VerifCombiningFrame{makeCombiningFrame(typ, comb, n, nscratch)}
+}
+
+func (v *VerifCombiningFrame) Combine(f frame.Frame) { v.c.Combine(f) }
+func (v *VerifCombiningFrame) Compact() frame.Frame  { return v.c.Compact() }
+func (v *VerifCombiningFrame) Len() int              { return v.c.Len() }
+func (v *VerifCombiningFrame) Cap() int              { return v.c.Cap() }
